@@ -229,6 +229,13 @@ impl<T> RawTable<T> {
     #[cfg_attr(feature = "inline-more", inline)]
     pub(crate) fn insert(&mut self, hash: u64, value: T, hasher: impl Fn(&T) -> u64) -> Bucket<T> {
         if self.table.capacity() == self.table.len() {
+            // The old table may still be around even though it is empty: `erase` and
+            // `replace_bucket_with` do not release it (so `retain` can empty it without
+            // it ever being freed). It holds nothing that still needs to be moved, so let
+            // go of it before starting the next resize.
+            if self.leftovers.as_ref().map_or(false, |lo| lo.table.len() == 0) {
+                let _ = self.leftovers.take();
+            }
             assert!(self.leftovers.is_none());
             // Even though this _may_ succeed without growing due to tombstones, handling
             // that case is convoluted, so we just assume this would grow the map.
